@@ -379,6 +379,41 @@ def check_scale(nh, ri, explicit_le, second_tree):
     return v
 
 
+def check_noeol(vi, ri, kind):
+    """Same diff with the final newline sequence removed: the last line is
+    still a line (the writer appends the missing newline on output)."""
+    attrs, (ins, dels, analysed) = file_attrs(vi, ri, kind, None,
+                                              OTHER_META[0])
+    nlk, le_opt, enc = RENDER[ri]
+    from mc.spec import nl as _nl
+    nlb = _nl(nlk, enc or 'ascii')
+    data = attrs['diff']
+    if not data.endswith(nlb):
+        return []
+    attrs['diff'] = data[:-len(nlb)]
+    d = DiffX()
+    f = d.add_change().add_file(**attrs)
+    try:
+        d.generate_stats()
+    except Exception as e:
+        from mc.observe import site_of
+        return [('generate-stats-raised:%s:%s' % (type(e).__name__,
+                                                  site_of(e)), repr(e))]
+    st = f.meta.get('stats')
+    if analysed:
+        want = {'insertions': ins, 'deletions': dels,
+                'lines changed': ins + dels}
+        if st != want:
+            return [('file-stats-wrong:no-final-newline',
+                     'variant %s rendering %r without the final newline: '
+                     'stats %r expected %r' % (VARIANTS[vi][0], RENDER[ri],
+                                               st, want))]
+    elif st is not None:
+        return [('unanalysed-file-stats-touched:no-final-newline',
+                 'variant %s: %r' % (VARIANTS[vi][0], st))]
+    return []
+
+
 def check_char(cp, ri, typed):
     """Hunk lines whose payload holds chr(cp) inside, at the start and at
     the end; counts known by construction."""
@@ -555,6 +590,9 @@ def plan(tier):
     for nh in (SCALE_HUNKS if tier == 'quick' else SCALE_HUNKS_T):
         for ri in range(len(SCALE_RENDER)):
             units.append(('scale', nh, ri))
+    # diffs whose last line is not terminated (difflib with lineterm='',
+    # hand-joined lines): every variant x rendering
+    units.append(('noeol',))
     # the character pass: one special character in the payload of hunk
     # lines, every rendering that can encode it
     from mc.alphabets import SPECIAL_CHARS
@@ -638,6 +676,22 @@ def run_unit(unit, tier):
                                                  'second': second})
                     acc.outcome('ok' if not viols else 'violation')
         acc.sample({'scale_hunks': nh, 'renderings': len(SCALE_RENDER)}, 1)
+        return acc
+    if unit[0] == 'noeol':
+        for vi in range(len(VARIANTS)):
+            for ri in range(len(RENDER)):
+                for kind in ('text-unset', 'text'):
+                    viols = check_noeol(vi, ri, kind)
+                    acc.evals += 1
+                    acc.states += 1
+                    acc.transitions += 2
+                    acc.validated += 1
+                    acc.nontrivial += 1
+                    for key, msg in viols:
+                        acc.violation(key, msg, {'kind': 'noeol', 'vi': vi,
+                                                 'ri': ri, 'fkind': kind})
+                    acc.outcome('ok' if not viols else 'violation')
+        acc.sample({'unterminated_last_line': VARIANTS[0][1]}, 1)
         return acc
     if unit[0] == 'chars':
         from mc.alphabets import SPECIAL_CHARS
@@ -726,6 +780,9 @@ def replay(payload):
     if payload.get('kind') == 'scale':
         return [{'key': k, 'msg': m} for k, m in check_scale(
             payload['nh'], payload['ri'], payload['le'], payload['second'])]
+    if payload.get('kind') == 'noeol':
+        return [{'key': k, 'msg': m} for k, m in check_noeol(
+            payload['vi'], payload['ri'], payload['fkind'])]
     if payload.get('kind') == 'char':
         return [{'key': k, 'msg': m} for k, m in (check_char(
             payload['cp'], payload['ri'], payload['typed']) or [])]
